@@ -58,44 +58,58 @@ def RT (env : Env) (L : Leaves) (n : Nat) (t : Ty) (v : Val) : Prop :=
     ∧ (isKeyTy t = true → hashable m = true)
     ∧ (decode m = .none → v = .none)
 
-theorem roundtrip_aux (S : Scalar → Bool) (env : Env) (L : Leaves) (hE : wfEnv S env = true) (hL : LeafLaws S env L) :
-    ∀ n t v, wfTy S env t = true → hasType env n t v = true → RT env L n t v := by
+/-- Validity with an arbitrary scalar check `leaf` and exact (class-aware) literal membership;
+    `hasType env = hasTypeL hasScalar env` by definition. -/
+def hasTypeL (leaf : Scalar → Val → Bool) (env : Env) : Nat → Ty → Val → Bool :=
+  hasTypeG leaf (fun vs v => Val.exactMem v vs) env
+
+theorem hasType_eq_hasTypeL (env : Env) : hasType env = hasTypeL hasScalar env := rfl
+
+/-- The induction, generic in the scalar validity check `leaf`: all it needs of the leaves is the
+    round-trip law for the values `leaf` accepts (and the enum law). -/
+theorem roundtrip_auxG (S : Scalar → Bool) (leaf : Scalar → Val → Bool) (env : Env) (L : Leaves)
+    (hE : wfEnv S env = true)
+    (hrt : ∀ s v, S s = true → leaf s v = true →
+      ∃ m, L.mar s v = .ok m ∧ L.um s m = .ok v ∧ hashable m = true ∧ decode m ≠ .none)
+    (henum : ∀ c i w, memberValue env c i = some w →
+      umEnum env L c w = .ok (.member c i) ∧ hashable w = true ∧ decode w ≠ .none) :
+    ∀ n t v, wfTy S env t = true → hasTypeL leaf env n t v = true → RT env L n t v := by
   intro n
   induction n with
-  | zero => intro t v _ h; simp [hasType, hasTypeG] at h
+  | zero => intro t v _ h; simp [hasTypeL, hasTypeG] at h
   | succ n ih =>
     intro t v hwf hty
     cases t with
     | scalar s =>
-      simp only [hasType, hasTypeG] at hty
+      simp only [hasTypeL, hasTypeG] at hty
       simp only [wfTy] at hwf
-      obtain ⟨m, h1, h2, h3, h4⟩ := hL.rt s v hwf hty
+      obtain ⟨m, h1, h2, h3, h4⟩ := hrt s v hwf hty
       exact ⟨m, by simp [mar, h1], by simp [um, h2], fun _ => h3, fun h => absurd h h4⟩
     | none =>
-      simp only [hasType, hasTypeG] at hty
+      simp only [hasTypeL, hasTypeG] at hty
       have hv := eq_none_of_beq hty
       subst hv
       exact ⟨.none, by simp [mar], by simp [um, umNone, decode], by simp [isKeyTy], fun _ => rfl⟩
     | any => simp [wfTy] at hwf
     | enum c =>
-      simp only [hasType, hasTypeG] at hty
+      simp only [hasTypeL, hasTypeG] at hty
       cases v with
       | member c' i =>
         simp only [Bool.and_eq_true, beq_iff_eq] at hty
         obtain ⟨hc, hsome⟩ := hty
         subst hc
         obtain ⟨w, hw⟩ := Option.isSome_iff_exists.mp hsome
-        obtain ⟨h1, h2, h3⟩ := hL.enumRT c' i w hw
+        obtain ⟨h1, h2, h3⟩ := henum c' i w hw
         refine ⟨w, by simp [mar, hw], by simp [um, h1], fun _ => h2, fun h => absurd h h3⟩
       | _ => simp at hty
     | literal vs =>
-      simp only [hasType, hasTypeG] at hty
+      simp only [hasTypeL, hasTypeG] at hty
       simp only [wfTy] at hwf
       obtain ⟨hmem, hprim⟩ := literal_pyMem env vs v hwf hty
       refine ⟨v, by simp [mar, hty], by simp [um, hmem], fun _ => isPrim_hashable hprim, ?_⟩
       intro h; rw [isPrim_decode hprim] at h; exact h
     | coll k e =>
-      simp only [hasType, hasTypeG] at hty
+      simp only [hasTypeL, hasTypeG] at hty
       simp only [wfTy] at hwf
       cases hco : collOf k v with
       | none => simp [hco] at hty
@@ -103,18 +117,18 @@ theorem roundtrip_aux (S : Scalar → Bool) (env : Env) (L : Leaves) (hE : wfEnv
         simp only [hco, List.all_eq_true] at hty
         obtain ⟨hv, hit⟩ := collOf_some hco
         obtain ⟨ms, hms1, hms2⟩ := mapR_roundtrip (mar env L n e) (um env L n e)
-          (fun x => hasType env n e x = true) xs hty
+          (fun x => hasTypeL leaf env n e x = true) xs hty
           (fun x hx => by obtain ⟨m, a, b, _⟩ := ih e x hwf hx; exact ⟨m, a, b⟩)
         refine ⟨.list ms, ?_, ?_, by simp [isKeyTy], by simp [decode]⟩
         · simp [mar, hit env, hms1]
         · simp [um, load, Except.bind, itervalues, hms2, hv]
     | tuple es =>
-      simp only [hasType, hasTypeG] at hty
+      simp only [hasTypeL, hasTypeG] at hty
       simp only [wfTy] at hwf
       cases v with
       | tuple xs =>
         simp only at hty
-        obtain ⟨ms, h1, h2, h3⟩ := zipR_roundtrip (mar env L n) (um env L n) (hasType env n) es xs hty
+        obtain ⟨ms, h1, h2, h3⟩ := zipR_roundtrip (mar env L n) (um env L n) (hasTypeL leaf env n) es xs hty
           (fun e x he hx => by
             obtain ⟨m, a, b, _⟩ := ih e x (wfTys_mem hwf e he) hx; exact ⟨m, a, b⟩)
         have hlen : xs.length = es.length := by
@@ -125,7 +139,7 @@ theorem roundtrip_aux (S : Scalar → Bool) (env : Env) (L : Leaves) (hE : wfEnv
         · simp [um, load, Except.bind, itervalues, h2, hlen]
       | _ => simp at hty
     | dict k e =>
-      simp only [hasType, hasTypeG] at hty
+      simp only [hasTypeL, hasTypeG] at hty
       simp only [wfTy, Bool.and_eq_true] at hwf
       obtain ⟨⟨hkey, hwk⟩, hwe⟩ := hwf
       cases v with
@@ -134,7 +148,7 @@ theorem roundtrip_aux (S : Scalar → Bool) (env : Env) (L : Leaves) (hE : wfEnv
         let F : Item → R (Val × Val) := convPair (mar env L n k) (mar env L n e)
         let G : Item → R (Val × Val) := convPair (um env L n k) (um env L n e)
         obtain ⟨ms, hms1, hms2⟩ := mapR_roundtrip (fun kv => F (.ok kv)) (fun kv => G (.ok kv))
-          (fun kv => hasType env n k kv.1 = true ∧ hasType env n e kv.2 = true ∧ hashable kv.1 = true) kvs
+          (fun kv => hasTypeL leaf env n k kv.1 = true ∧ hasTypeL leaf env n e kv.2 = true ∧ hashable kv.1 = true) kvs
           (fun kv hkv => by
             obtain ⟨⟨a, b⟩, c⟩ := hty kv hkv
             exact ⟨a, b, c⟩)
@@ -157,7 +171,7 @@ theorem roundtrip_aux (S : Scalar → Bool) (env : Env) (L : Leaves) (hE : wfEnv
           rw [hms2]
       | _ => simp at hty
     | union ms =>
-      simp only [hasType, hasTypeG, List.any_eq_true] at hty
+      simp only [hasTypeL, hasTypeG, List.any_eq_true] at hty
       simp only [wfTy, Bool.and_eq_true, optionalOnly, beq_iff_eq] at hwf
       obtain ⟨⟨hnull, hone⟩, hwms⟩ := hwf
       obtain ⟨m0, hm0, hty0⟩ := hty
@@ -208,14 +222,15 @@ theorem roundtrip_aux (S : Scalar → Bool) (env : Env) (L : Leaves) (hE : wfEnv
             cases hd : decode m <;> first | rfl | exact absurd hd hdec
           simp [um, unionOrder, hnull, ht', firstOk, humNone, hrej, Err.isRejection, h2]
     | cls c =>
-      simp only [hasType, hasTypeG] at hty
+      clear hrt henum
+      simp only [hasTypeL, hasTypeG] at hty
       cases hc : env.cls c with
       | none => simp [hc] at hty
       | some ci =>
         have hwc := wfEnv_cls hE hc
         simp only [wfClass, Bool.and_eq_true, List.all_eq_true, Bool.not_eq_eq_eq_not, Bool.not_true] at hwc
         obtain ⟨⟨hnd, hfld⟩, hreq⟩ := hwc
-        have hrtF : ∀ t v, (wfTy S env t && hasType env n t v) = true →
+        have hrtF : ∀ t v, (wfTy S env t && hasTypeL leaf env n t v) = true →
             ∃ m, mar env L n t v = .ok m ∧ um env L n t m = .ok v := by
           intro t v h
           simp only [Bool.and_eq_true] at h
@@ -234,7 +249,7 @@ theorem roundtrip_aux (S : Scalar → Bool) (env : Env) (L : Leaves) (hE : wfEnv
               simp only [hkn, Bool.and_eq_true, List.all_eq_true] at hty
               obtain ⟨⟨hndn, hreqn⟩, hflds⟩ := hty
               obtain ⟨fs, hfs1, hfs2⟩ := keyNames_some kvs names hkn
-              have hPfs : ∀ p ∈ fs, ∃ t, (p.1, t) ∈ ci.fields ∧ (wfTy S env t && hasType env n t p.2) = true := by
+              have hPfs : ∀ p ∈ fs, ∃ t, (p.1, t) ∈ ci.fields ∧ (wfTy S env t && hasTypeL leaf env n t p.2) = true := by
                 intro p hp
                 have hkv : (Val.str p.1, p.2) ∈ kvs := by rw [hfs1]; exact List.mem_map_of_mem (f := fun q : Str × Val => (Val.str q.1, q.2)) hp
                 have := hflds _ hkv
@@ -252,7 +267,7 @@ theorem roundtrip_aux (S : Scalar → Bool) (env : Env) (L : Leaves) (hE : wfEnv
                   simp only [hw, Bool.true_and]
                   exact this
               obtain ⟨ms, hb1, hb2, hb3⟩ := buildKwargs_rt ci.fields (mar env L n) (um env L n)
-                (fun t v => wfTy S env t && hasType env n t v) hnd hrtF fs [] (by rw [hfs2]; exact hndn)
+                (fun t v => wfTy S env t && hasTypeL leaf env n t v) hnd hrtF fs [] (by rw [hfs2]; exact hndn)
                 (by intro p _; simp) hPfs
               refine ⟨.dict (ms.map fun p => (.str p.1, p.2)), ?_, ?_, by simp [isKeyTy], by simp [decode]⟩
               · simp only [mar, hc, iteritems]
@@ -278,13 +293,13 @@ theorem roundtrip_aux (S : Scalar → Bool) (env : Env) (L : Leaves) (hE : wfEnv
         · -- dataclass / named tuple / plain / slots: an instance with the declared fields
           cases v with
           | inst c' fs =>
-            have hty' : (c' == c && all2 (fun (f : Str × Ty) (g : Str × Val) => f.1 == g.1 && hasType env n f.2 g.2) ci.fields fs) = true := by
-              cases hfl : ci.flavour <;> simp_all [hasType]
+            have hty' : (c' == c && all2 (fun (f : Str × Ty) (g : Str × Val) => f.1 == g.1 && hasTypeL leaf env n f.2 g.2) ci.fields fs) = true := by
+              cases hfl : ci.flavour <;> simp_all [hasTypeL]
             simp only [Bool.and_eq_true, beq_iff_eq] at hty'
             obtain ⟨hcc, hall⟩ := hty'
             subst hcc
             obtain ⟨hnames, hnameeq, hP⟩ := all2_names ci.fields fs hall
-            have hPfs : ∀ p ∈ fs, ∃ t, (p.1, t) ∈ ci.fields ∧ (wfTy S env t && hasType env n t p.2) = true := by
+            have hPfs : ∀ p ∈ fs, ∃ t, (p.1, t) ∈ ci.fields ∧ (wfTy S env t && hasTypeL leaf env n t p.2) = true := by
               intro p hp
               obtain ⟨t, ht, hPt⟩ := hP p hp
               exact ⟨t, ht, by simp [(hfld (p.1, t) ht).2, hPt]⟩
@@ -294,7 +309,7 @@ theorem roundtrip_aux (S : Scalar → Bool) (env : Env) (L : Leaves) (hE : wfEnv
               obtain ⟨t, ht, _⟩ := hP p hp
               exact (hfld (p.1, t) ht).1
             obtain ⟨ms, hb1, hb2, hb3⟩ := buildKwargs_rt ci.fields (mar env L n) (um env L n)
-              (fun t v => wfTy S env t && hasType env n t v) hnd hrtF fs [] hndfs (by intro p _; simp) hPfs
+              (fun t v => wfTy S env t && hasTypeL leaf env n t v) hnd hrtF fs [] hndfs (by intro p _; simp) hPfs
             have hpubms : ∀ p ∈ ms, isPrivate p.1 = false := by
               intro p hp
               have : p.1 ∈ fs.map Prod.fst := by rw [← hb2]; exact List.mem_map_of_mem (f := Prod.fst) hp
@@ -315,10 +330,30 @@ theorem roundtrip_aux (S : Scalar → Bool) (env : Env) (L : Leaves) (hE : wfEnv
           | _ =>
             cases hfl : ci.flavour <;> simp_all
     | wrap w t' =>
-      simp only [hasType, hasTypeG] at hty
+      simp only [hasTypeL, hasTypeG] at hty
       simp only [wfTy] at hwf
       obtain ⟨m, h1, h2, h3, h4⟩ := ih t' v hwf hty
       exact ⟨m, by simp [mar, h1], by simp [um, h2], by simpa [isKeyTy] using h3, h4⟩
+
+theorem roundtrip_aux (S : Scalar → Bool) (env : Env) (L : Leaves) (hE : wfEnv S env = true) (hL : LeafLaws S env L) :
+    ∀ n t v, wfTy S env t = true → hasType env n t v = true → RT env L n t v :=
+  roundtrip_auxG S hasScalar env L hE hL.rt hL.enumRT
+
+/-- **C01, generic in the scalar validity check**: for values whose scalar positions satisfy `leaf`
+    (`hasTypeL leaf`), provided the leaves round-trip every value `leaf` accepts.  `roundtrip` is the
+    instance `leaf = hasScalar`; Props/C04.lean instantiates it with the canonical-spelling check
+    `hasScalarC` for Decimal / Fraction / path / pattern. -/
+theorem roundtripG (S : Scalar → Bool) (leaf : Scalar → Val → Bool) (env : Env) (L : Leaves)
+    (hE : wfEnv S env = true)
+    (hrt : ∀ s v, S s = true → leaf s v = true →
+      ∃ m, L.mar s v = .ok m ∧ L.um s m = .ok v ∧ hashable m = true ∧ decode m ≠ .none)
+    (henum : ∀ c i w, memberValue env c i = some w →
+      umEnum env L c w = .ok (.member c i) ∧ hashable w = true ∧ decode w ≠ .none)
+    (n : Nat) (t : Ty) (v : Val)
+    (hwf : wfTy S env t = true) (hty : hasTypeL leaf env n t v = true) :
+    ∃ m, mar env L n t v = .ok m ∧ um env L n t m = .ok v := by
+  obtain ⟨m, h1, h2, _⟩ := roundtrip_auxG S leaf env L hE hrt henum n t v hwf hty
+  exact ⟨m, h1, h2⟩
 
 /-- **C01, Optional-only unions.** -/
 theorem roundtrip (S : Scalar → Bool) (env : Env) (L : Leaves) (hE : wfEnv S env = true)
